@@ -84,7 +84,31 @@ pub struct SrcState {
     pub lie_at_call: Option<(u64, usize)>,
     /// C14: panic at this call number
     pub panic_at_call: Option<u64>,
+    /// selects the ErrorKind of the injected failure
+    pub fail_salt: u64,
 }
+
+pub const FAIL_KINDS: [io::ErrorKind; 19] = [
+    io::ErrorKind::Other,
+    io::ErrorKind::BrokenPipe,
+    io::ErrorKind::UnexpectedEof,
+    io::ErrorKind::WouldBlock,
+    io::ErrorKind::TimedOut,
+    io::ErrorKind::ConnectionReset,
+    io::ErrorKind::ConnectionAborted,
+    io::ErrorKind::ConnectionRefused,
+    io::ErrorKind::NotConnected,
+    io::ErrorKind::InvalidData,
+    io::ErrorKind::InvalidInput,
+    io::ErrorKind::PermissionDenied,
+    io::ErrorKind::NotFound,
+    io::ErrorKind::WriteZero,
+    io::ErrorKind::OutOfMemory,
+    io::ErrorKind::Unsupported,
+    io::ErrorKind::AlreadyExists,
+    io::ErrorKind::AddrInUse,
+    io::ErrorKind::AddrNotAvailable,
+];
 
 #[derive(Clone)]
 pub struct Src(pub Rc<RefCell<SrcState>>);
@@ -109,6 +133,7 @@ impl Src {
             cut_idx: 0,
             lie_at_call: None,
             panic_at_call: None,
+            fail_salt: seed,
         })))
     }
     pub fn from_bytes(data: &[u8], policy: Policy, seed: u64) -> Src {
@@ -185,7 +210,9 @@ impl Read for Src {
                     if s.record_calls {
                         s.log.call_log.push((buf.len(), -2));
                     }
-                    Err(io::Error::new(io::ErrorKind::Other, "injected source failure"))
+                    // any kind but Interrupted (which means "try again"); varied per source
+                    let kind = FAIL_KINDS[((s.limit as u64).wrapping_add(s.fail_salt) % FAIL_KINDS.len() as u64) as usize];
+                    Err(io::Error::new(kind, "injected source failure"))
                 }
             };
         }
